@@ -111,6 +111,7 @@ func main() {
 	n := flag.Int("cases", 100, "number of cases to generate")
 	replay := flag.String("replay", "", "case file to run instead of generating")
 	outDir := flag.String("out", ".", "output directory")
+	dumpOnly := flag.Bool("dump", false, "only write the generated cases (do not run them)")
 	flag.Parse()
 	s, ok := suites[*suiteName]
 	if !ok {
@@ -145,7 +146,12 @@ func main() {
 	for _, c := range cases {
 		fmt.Fprintf(cw, "case %s\n", c.Header)
 		fmt.Fprintln(rw, "#case")
-		res := safeRun(s, c)
+		var res []string
+		if *dumpOnly {
+			res = make([]string, len(c.Ops))
+		} else {
+			res = safeRun(s, c)
+		}
 		for i, op := range c.Ops {
 			fmt.Fprintln(cw, op)
 			fmt.Fprintln(rw, res[i])
